@@ -104,7 +104,17 @@ def check_case(run, case, tier='quick'):
             run.case(h([case['spec'], k]) if tie else None)
             if not ok:
                 return
-        # ---- histories through the real main(), keypress thread and .sav file
+        # ---- histories through the real main(), keypress thread and .sav file (they also write every guess: keep those runs bounded)
+        est = 0
+        for bi, labs, bp, s_ in lang.base:
+            k_ = 1
+            for l in labs:
+                k_ *= sum(len(g[1]) for g in lang.groups.get(l, []))
+            est += k_
+        if est > 200000:
+            run.ev('main_histories_skipped_large_stream')
+            run.sample({'base': case['spec']['base'], 'flags': case['flags'], 'U_len': len(U), 'cut_points': len(ks), 'distinct_probs': len(set(probs))})
+            return
         argv = ['-r', name, '-s', sn] + (['--skip_brute'] if flags['skip_brute'] else []) + (['--all_lower'] if flags['skip_case'] else [])
         for hidx in range(MAIN_HISTORIES[tier]):
             session.drop_session(sn)
@@ -135,7 +145,7 @@ def check_case(run, case, tier='quick'):
                                       observed={'guesses': r.guesses[:5], 'stderr_tail': r.stderr[-300:]})
                         return
                     rulesets.write_ruleset(path, case['spec'])
-                r = session.run_main(argv + (['--load'] if c else []), trigger=trig)
+                r = session.run_main(argv + (['--load'] if c else []), trigger=trig, max_guesses=4 * est + 1000)
                 run.ev('main_runs'); run.ev('POP', len(r.pops))
                 if r.exc is not None:
                     run.violation(f'main() raised {r.exc!r} in cycle {c}', case, observed=r.stderr[-500:]); return
